@@ -55,6 +55,7 @@ type stats struct {
 	proofsOut int // outline codec round trips carrying v2 transactions with proofs
 	seenBlk   map[types.BlockID]bool
 	repeated  int
+	maxLeaves uint64 // largest accumulator a chain block was built on
 }
 
 func newStats() *stats {
@@ -175,7 +176,9 @@ func runMultiproofTLC(c *vlib.Ctx, sp span, workers int) *mpCases {
 	return out
 }
 
-func saltOf(seed int64, n int) uint64 { return uint64(seed)*0x9e3779b97f4a7c15 + uint64(n)*1000003 + 18 }
+func saltOf(seed int64, n int) uint64 {
+	return uint64(seed)*0x9e3779b97f4a7c15 + uint64(n)*1000003 + 18
+}
 
 // a synthetic block candidate: the transactions of a TLC case
 type synthSrc struct {
@@ -381,6 +384,9 @@ func checkChainBlock(c *vlib.Ctx, st *stats, rb *realBlock, cases map[[2]int][]*
 	st.noteSet(rb.src, ft, len(b.V2Transactions()))
 	st.mu.Lock()
 	st.chainBlk++
+	if rb.cs.Elements.NumLeaves > st.maxLeaves {
+		st.maxLeaves = rb.cs.Elements.NumLeaves
+	}
 	if len(b.Transactions) > 0 && len(b.V2Transactions()) > 0 {
 		st.mixedBlk++
 	}
@@ -430,7 +436,7 @@ func main() {
 		replay(c)
 		c.Finish()
 	}
-	c.Rule("(1) Multiproof.tla cases: every forest of n leaves and every multiplicity vector m in {0,1,2}^n \\ {0} (quick: n<=7 all, n=8..10 at most one duplicate; thorough: n<=10 all, n=11..12 at most one duplicate), laid out by the specification as 1..3 v2 transactions (siacoin/siafund inputs, revision and resolution parents, storage-proof chain indices, ephemeral parents); TLC checks compute=definition, size, inference, expand on each and prints the expected multiproof; the harness builds real elements, evaluates the terms with real leaf hashes, and compares the real encoder's bytes / decoder's proofs. A case is non-trivial iff some referenced leaf has a non-empty proof. " +
+	c.Rule("(1) Multiproof.tla cases: every forest of n leaves and every multiplicity vector m in {0,1,2}^n \\ {0} (quick: n<=7 all, n=8..10 at most one duplicate; thorough: n<=10 all, n=11..12 at most one duplicate, n=13..15 no duplicates), laid out by the specification as 1..3 v2 transactions (siacoin/siafund inputs, revision and resolution parents, storage-proof chain indices, ephemeral parents); TLC checks compute=definition, size, inference, expand on each and prints the expected multiproof; the harness builds real elements, evaluates the terms with real leaf hashes, and compares the real encoder's bytes / decoder's proofs. A case is non-trivial iff some referenced leaf has a non-empty proof. " +
 		"(2) every accepted block of TLC-simulated Ledger.tla behaviours (v2-only and mixed-era networks; payments, siafunds, v2 formation/revision/proof/expiry/renewal, ephemeral spends): wire round trip, ID, commitment, proofs, ValidateBlock, ApplyBlock state. " +
 		"(3) Outline.tla cases (block shape k1+k2<=4 x omitted set x offered subset x extras x order) on those chain blocks (a seeded sample of cases per block in quick) and on synthetic blocks made of the transactions of (1) (all cases of the shape). evaluations = TLC multiproof cases + chain blocks round-tripped + (block, outline case) pairs; distinct_nontrivial = non-trivial multiproof sets (TLC cases and chain blocks) + outline pairs with at least one omitted transaction.")
 	c.Assume("hash terms are injective: results are relative to collision resistance of blake2b")
@@ -454,7 +460,7 @@ func main() {
 	// --- multiproof cases (TLC) in the background --------------------------------------------
 	spans := []span{{1, 7, 8}, {8, 10, 1}}
 	if c.Thorough {
-		spans = []span{{1, 8, 12}, {9, 9, 12}, {10, 10, 12}, {11, 11, 1}, {12, 12, 1}}
+		spans = []span{{1, 8, 12}, {9, 9, 12}, {10, 10, 12}, {11, 11, 1}, {12, 12, 1}, {13, 14, 0}, {15, 15, 0}}
 	}
 	var synth []synthSrc
 	var bg sync.WaitGroup
@@ -481,7 +487,7 @@ func main() {
 	limit := c.Pick(12, 48)
 	for _, rn := range runs {
 		cfg := chainConfig(rn)
-		opts := chain.RunOpts{Num: c.Pick(140, 2500), Depth: 64, Timeout: 20 * time.Minute, NoFocus: rn.noFocus,
+		opts := chain.RunOpts{Num: c.Pick(140, 4000), Depth: 64, Timeout: 20 * time.Minute, NoFocus: rn.noFocus,
 			KeyOf: func(m chain.Mismatch) string { return "ledger/" + m.Kind + "/" + m.Tag },
 			Hook: func(sim *chain.Sim, beh *chain.Behaviour, i int, step chain.Step, res chain.StepResult) {
 				if step.Op != "block" || step.Verdict != "accept" || !res.Accepted || len(sim.Chain) == 0 {
@@ -563,6 +569,7 @@ func main() {
 	c.Cov("chain_blocks_repeated_in_other_behaviours_skipped", st.repeated)
 	c.Cov("chain_blocks_mixing_v1_and_v2", st.mixedBlk)
 	c.Cov("synthetic_blocks", nSynth)
+	c.Cov("largest_accumulator_under_a_chain_block_leaves", st.maxLeaves)
 	c.Cov("wall_tlc_and_chains_s", tMid.Seconds())
 	need := func(m map[string]int, keys ...string) {
 		for _, k := range keys {
